@@ -1,9 +1,322 @@
-import PartituraModel.Model.Codec
-import Mathlib.Tactic.Linarith
+/-
+C18 — decoding an encoded performance reproduces the performance.
+
+Property theorems about the executable model `Model/Codec.lean` (exact rationals).  The
+logarithm/exponential identities live in `Props/C18Real.lean`.  What the theorems say:
+
+* `timing_roundtrip`      onsets: decode (encode x) = performed onsets − earliest performed onset, for
+                          ANY positive beat-period sequence (any tempo-curve method) and every normalisation
+* `encode_average`        the built-in "average" tempo curve is one such sequence
+* `duration_roundtrip_partial`  durations of the matched score come back, except for notes without score
+                          duration (open finding F-C18-2); `matched_row_duration_partial`: the matched score
+                          holds the performed duration only if it is at least 0.075 s (open finding F-C18-4)
+* `velocity_roundtrip`    velocities, with room for the float32 storage
+* `normalisation_inverse` rescale ∘ scale = id for the five normalisations (over ℚ; `2^column` for the
+                          logarithmic ones, see C18Real for log/exp)
+* `matched_table`, `matched_notes`   the matched-note tables
+* `time_maps_knots`, `time_maps_interp`  the time maps
+-/
+import PartituraModel.Proofs.C18Roundtrip
+import PartituraModel.Proofs.C18Norm
+import PartituraModel.Proofs.C18Match
+import PartituraModel.Proofs.C18Interp
 
 namespace C18
-open Model Model.Codec
+open Model Model.Codec C18P
 
-theorem clip_placeholder_partial : clipInt 1 127 5 = 5 := by decide
+/-- `sd` is a square root of the variance of the beat periods (`np.std`); only read by `standardized` -/
+def StdOk (n : Norm) (sd : Rat) (bp : List Rat) : Prop := n = .std → sd * sd = variance bp
+
+-- ------------------------------------------------------------------ normalisations
+
+/-- every row of normalisation columns rescales to the beat period it was computed from -/
+theorem normalisation_inverse (n : Norm) (sd : Rat) (bps : List Rat) (hpos : ∀ b ∈ bps, 0 < b)
+    (hstd : StdOk n sd bps) :
+    List.Forall₂ (fun c b => rescale n c = some b) (scale n sd bps) bps :=
+  scale_rescale n sd bps hpos hstd
+
+example : StdOk .std 1 [1, 3] := by intro _; unfold variance mean sumR; simp [sumR]; norm_num
+example : scale .std 1 [1, 3] = [[-1, 2, 1], [1, 2, 1]] := by decide +kernel
+/-- a constant tempo curve: zero deviation, standardised value 0 (repair C18-7) -/
+example : scale .std 0 [3/4, 3/4] = [[0, 3/4, 0], [0, 3/4, 0]] ∧ rescale .std [0, 3/4, 0] = some (3/4) := by
+  decide +kernel
+
+-- ------------------------------------------------------------------ timing, durations
+
+/-- decoding the encoded parameters gives every note its performed onset minus the earliest
+    performed onset: for every normalisation, for ANY positive beat-period sequence `bp` (one per
+    onset group — whatever tempo-curve method produced it), any grouping into chords, any performed
+    onsets and durations. -/
+theorem timing_roundtrip (n : Norm) (sd : Rat) (ns : List MNote) (bp : List Rat)
+    (hne : ns ≠ []) (hlen : bp.length = (encGroups ns).length)
+    (hpos : ∀ b ∈ bp, 0 < b) (hsd : ∀ x ∈ ns, 0 ≤ x.sd) (hstd : StdOk n sd bp) :
+    ∃ ps, encode (.given bp) n sd ns = some ps ∧ ps.length = ns.length ∧
+      (decodeTime n (List.zipWith toDRow ns ps)).map (fun l => l.map Prod.fst)
+        = some (ns.map fun x => x.po - minPo ns) := by
+  obtain ⟨ps, h1, h2, h3⟩ := codec_roundtrip n sd ns bp hne hlen hpos hsd (scale_rescale n sd bp hpos hstd)
+  refine ⟨ps, h1, h2, ?_⟩
+  rw [h3]
+  simp [List.map_map, Function.comp]
+
+/-- the decoded durations are the durations of the matched score, EXCEPT that a note without score
+    duration (grace note) decodes to duration 0 whatever it was played like (open finding F-C18-2).
+    Together with `matched_row_duration_partial` (clip at 0.075 s, F-C18-4) this is what holds of the
+    property's duration clause. -/
+theorem duration_roundtrip_partial (n : Norm) (sd : Rat) (ns : List MNote) (bp : List Rat)
+    (hne : ns ≠ []) (hlen : bp.length = (encGroups ns).length)
+    (hpos : ∀ b ∈ bp, 0 < b) (hsd : ∀ x ∈ ns, 0 ≤ x.sd) (hstd : StdOk n sd bp) :
+    ∃ ps, encode (.given bp) n sd ns = some ps ∧
+      (decodeTime n (List.zipWith toDRow ns ps)).map (fun l => l.map Prod.snd)
+        = some (ns.map fun x => if x.sd = 0 then 0 else x.pd) := by
+  obtain ⟨ps, h1, _, h3⟩ := codec_roundtrip n sd ns bp hne hlen hpos hsd (scale_rescale n sd bp hpos hstd)
+  refine ⟨ps, h1, ?_⟩
+  rw [h3]
+  simp [List.map_map, Function.comp]
+
+/-- the built-in `average` tempo curve is one admissible `bp` (its positivity is checked on every
+    generated case by the harness) -/
+theorem encode_average (n : Norm) (sd : Rat) (ns : List MNote) (bp : List Rat)
+    (h : tempoAverage ns (encGroups ns) = some bp) (hlen : bp.length = (encGroups ns).length) :
+    encode .average n sd ns = encode (.given bp) n sd ns := by
+  unfold encode
+  simp only [h, hlen, if_true]
+
+/-- a chord (two notes on one onset), a second onset and a grace note; beat periods 1/2, 3/4, 1 -/
+def demoNotes : List MNote := [⟨0, 1, 1, 1/2⟩, ⟨0, 2, 17/16, 1⟩, ⟨1, 1, 3/2, 1/4⟩, ⟨2, 0, 9/4, 1/8⟩]
+
+example : demoNotes ≠ [] ∧ [(1 : Rat)/2, 3/4, 1].length = (encGroups demoNotes).length
+    ∧ (∀ b ∈ [(1 : Rat)/2, 3/4, 1], 0 < b) ∧ (∀ x ∈ demoNotes, 0 ≤ x.sd) := by decide +kernel
+example : StdOk .ratio 0 [1/2, 3/4, 1] := by intro h; cases h
+example : (encode (.given [1/2, 3/4, 1]) .ratio 0 demoNotes).map (fun ps => ps.map (·.timing))
+    = some [1/32, -1/32, 1/32, 1/32] := by decide +kernel
+/-- F-C18-2 at the witness: the grace note played for 1/8 s decodes to 0 s -/
+example : ∃ ps, encode (.given [1/2, 3/4, 1]) .bp 0 demoNotes = some ps ∧
+    (decodeTime .bp (List.zipWith toDRow demoNotes ps)).map (fun l => l.map Prod.snd) = some [1/2, 1, 1/4, 0]
+    ∧ ¬ (decodeTime .bp (List.zipWith toDRow demoNotes ps)).map (fun l => l.map Prod.snd)
+          = some (demoNotes.map (·.pd)) := by
+  decide +kernel
+
+-- ------------------------------------------------------------------ velocity
+
+/-- a MIDI velocity survives `v/127` → (anything within 1/254 of it, e.g. its float32 rounding)
+    → `clip(round(·127), 1, 127)` -/
+theorem velocity_roundtrip (v : Int) (h1 : 1 ≤ v) (h2 : v ≤ 127) (x : Rat) (hx : |x - encodeVel v| < 1 / 254) :
+    decodeVel x = v := by
+  unfold decodeVel encodeVel at *
+  have h : |x * 127 - (v : Rat)| < 1 / 2 := by
+    have e : x * 127 - (v : Rat) = (x - (v : Rat) / 127) * 127 := by ring
+    rw [e, abs_mul]
+    have : |(127 : Rat)| = 127 := abs_of_pos (by norm_num)
+    rw [this]
+    have := mul_lt_mul_of_pos_right hx (show (0 : Rat) < 127 by norm_num)
+    linarith
+  rw [roundHalfEven_near v _ h]
+  unfold clipInt
+  rw [if_neg (by omega), if_neg (by omega)]
+
+theorem velocity_roundtrip_exact (v : Int) (h1 : 1 ≤ v) (h2 : v ≤ 127) : decodeVel (encodeVel v) = v :=
+  velocity_roundtrip v h1 h2 _ (by simp)
+
+example : decodeVel (encodeVel 64) = 64 := velocity_roundtrip_exact 64 (by decide) (by decide)
+/-- the float32 nearest to 1/127 -/
+example : decodeVel (8454661 / 1073741824) = 1 :=
+  velocity_roundtrip 1 (by decide) (by decide) _ (by unfold encodeVel; norm_num [abs_lt])
+
+-- ------------------------------------------------------------------ matched tables
+
+/-- `get_matched_notes`: exactly the alignment's matches whose ids exist on both sides -/
+theorem matched_notes (ss : List SRow) (ps : List PRow) (al : List ARow) (i j : Nat) :
+    (i, j) ∈ matchedNotes ss ps al ↔
+      ∃ a ∈ al, a.label = "match" ∧ ∃ s p, a.sid = some s ∧ a.pid = some p ∧
+        sIndex ss s = some i ∧ pIndex ps p = some j :=
+  mem_matchedNotes ss ps al i j
+
+/-- `to_matched_score`, when it returns: its rows are built (`mkRow`) from a rearrangement of exactly
+    the matches with both ids present, ordered by (onset_div, pitch) -/
+theorem matched_table (ss : List SRow) (ps : List PRow) (al : List ARow) (rows : List MRow)
+    (h : toMatchedScore ss ps al = some rows) :
+    ∃ pairs : List (Nat × Nat), pairs.Perm (matchedNotes ss ps al) ∧
+      pairs.Pairwise (fun a b => lexLe (sKey ss a.1) (sKey ss b.1) = true) ∧
+      List.Forall₂ (fun ij r => mkRow ss ps ij = some r) pairs rows := by
+  unfold toMatchedScore at h
+  cases hp : matchedPairs ss ps al with
+  | none => rw [hp] at h; simp at h
+  | some pairs =>
+    rw [hp] at h
+    obtain ⟨h1, h2⟩ := matchedPairs_spec ss ps al pairs hp
+    refine ⟨pairs, h1, h2, ?_⟩
+    simp only at h
+    rw [allSome_eq_some] at h
+    rw [← List.forall₂_map_left_iff (f := mkRow ss ps) (R := fun o r => o = some r), h,
+      List.forall₂_map_left_iff]
+    exact List.forall₂_same.mpr (fun _ _ => rfl)
+
+/-- it returns whenever no match with a known score id points to an unknown performance id -/
+theorem matched_table_defined (ss : List SRow) (ps : List PRow) (al : List ARow)
+    (h : ∀ a ∈ al, a.label = "match" → ∃ s, a.sid = some s ∧
+      (sIndex ss s = none ∨ ∃ p, a.pid = some p ∧ (pIndex ps p).isSome)) :
+    (notePairs ss ps al).isSome := by
+  induction al with
+  | nil => simp [notePairs]
+  | cons a rest ih =>
+    rw [notePairs]
+    have ih' := ih (fun b hb => h b (by simp [hb]))
+    cases hr : notePairs ss ps rest with
+    | none => rw [hr] at ih'; simp at ih'
+    | some tl =>
+      simp only
+      by_cases hm : a.label = "match"
+      · obtain ⟨s, hs, hcase⟩ := h a (by simp) hm
+        simp only [hm, if_true, hs]
+        rcases hcase with h0 | ⟨p, hp, hj⟩
+        · simp [h0]
+        · cases hi : sIndex ss s with
+          | none => simp
+          | some i =>
+            obtain ⟨j, hj'⟩ := Option.isSome_iff_exists.mp hj
+            simp [hp, hj']
+      · simp [hm]
+
+/-- content of a row; the performed duration is kept only if it is at least 0.075 s
+    (open finding F-C18-4) -/
+theorem matched_row_duration_partial (ss : List SRow) (ps : List PRow) (ij : Nat × Nat) (r : MRow)
+    (h : mkRow ss ps ij = some r) :
+    ∃ s p, ss[ij.1]? = some s ∧ ps[ij.2]? = some p ∧ r.sidx = ij.1 ∧ r.so = s.so ∧ r.sd = s.sd ∧
+      r.pitch = s.pitch ∧ r.po = p.po ∧ r.vel = p.vel ∧ (3 / 40 ≤ p.pd → r.pd = p.pd) := by
+  unfold mkRow at h
+  cases hs : ss[ij.1]? with
+  | none => rw [hs] at h; simp at h
+  | some s =>
+    cases hp : ps[ij.2]? with
+    | none => rw [hs, hp] at h; simp at h
+    | some p =>
+      rw [hs, hp] at h
+      simp only [Option.some.injEq] at h
+      refine ⟨s, p, rfl, rfl, ?_⟩
+      rw [← h]
+      refine ⟨rfl, rfl, rfl, rfl, rfl, rfl, ?_⟩
+      intro hge
+      have hn : ¬ (clipDur > p.pd) := by unfold clipDur; exact not_lt.mpr hge
+      show (if clipDur > p.pd then clipDur else p.pd) = p.pd
+      rw [if_neg hn]
+
+def demoScore : List SRow := [⟨"n0", 0, 60, 0, 1⟩, ⟨"n1", 0, 55, 0, 2⟩, ⟨"n2", 4, 62, 1, 1⟩]
+def demoPerf : List PRow := [⟨"p0", 1, 3/64, 70⟩, ⟨"p1", 17/16, 1, 60⟩, ⟨"p9", 5, 1, 50⟩]
+def demoAl : List ARow := [⟨"match", some "n2", some "p1"⟩, ⟨"insertion", none, some "p9"⟩,
+  ⟨"match", some "n0", some "p0"⟩, ⟨"match", some "zz", some "p9"⟩, ⟨"deletion", some "n1", none⟩]
+
+example : toMatchedScore demoScore demoPerf demoAl
+    = some [⟨0, 0, 1, 60, 1, 3/40, 70⟩, ⟨2, 1, 1, 62, 17/16, 1, 60⟩] := by decide +kernel
+/-- F-C18-4 at the witness: the note played for 3/64 s (46.9 ms) is tabled with 3/40 s -/
+example : ∃ r, mkRow demoScore demoPerf (0, 0) = some r ∧ r.pd ≠ 3/64 := ⟨_, rfl, by decide +kernel⟩
+example : (notePairs demoScore demoPerf [⟨"match", some "n0", some "p7"⟩]) = none := by decide +kernel
+
+-- ------------------------------------------------------------------ time maps
+
+/-- the knots: one per score onset at which a (non-ornament) note is matched, carrying the mean
+    performed onset of those notes; score onsets strictly increasing -/
+theorem time_maps_knots (ro : Bool) (rows : List TRow) :
+    IncX (timeKnots ro rows) ∧
+    ∀ u m, (u, m) ∈ timeKnots ro rows ↔
+      (∃ r ∈ rows, r.1 = u ∧ (ro = true → r.2.1 > 0)) ∧
+        m = mean ((rows.filter fun r => decide (r.1 = u) && (!ro || decide (r.2.1 > 0))).map (·.2.2)) := by
+  refine ⟨timeKnots_incX ro rows, ?_⟩
+  intro u m
+  unfold timeKnots
+  rw [List.mem_filterMap]
+  constructor
+  · rintro ⟨a, ha, h⟩
+    simp only at h
+    split at h
+    · simp at h
+    · rename_i x xs hsel
+      simp only [Option.some.injEq, Prod.mk.injEq] at h
+      obtain ⟨rfl, rfl⟩ := h
+      refine ⟨?_, by rw [hsel]⟩
+      have hx : x ∈ rows.filter fun r => decide (r.1 = a) && (!ro || decide (r.2.1 > 0)) := by
+        rw [hsel]; simp
+      rw [List.mem_filter] at hx
+      refine ⟨x, hx.1, ?_, ?_⟩
+      · have := hx.2
+        simp only [Bool.and_eq_true, decide_eq_true_eq] at this
+        exact this.1
+      · intro hro
+        have := hx.2
+        simp only [Bool.and_eq_true, decide_eq_true_eq, Bool.or_eq_true, Bool.not_eq_true'] at this
+        rcases this.2 with h' | h'
+        · rw [hro] at h'; cases h'
+        · exact h'
+  · rintro ⟨⟨r, hr, hru, hro⟩, hm⟩
+    refine ⟨u, ?_, ?_⟩
+    · rw [mem_uniqueSorted]
+      exact List.mem_map.mpr ⟨r, hr, hru⟩
+    · simp only
+      have hx : r ∈ rows.filter fun r => decide (r.1 = u) && (!ro || decide (r.2.1 > 0)) := by
+        rw [List.mem_filter]
+        refine ⟨hr, ?_⟩
+        simp only [Bool.and_eq_true, decide_eq_true_eq, Bool.or_eq_true, Bool.not_eq_true']
+        refine ⟨hru, ?_⟩
+        cases ro with
+        | false => left; rfl
+        | true => right; exact hro rfl
+      split
+      · rename_i hnil; rw [hnil] at hx; simp at hx
+      · rename_i x xs hsel
+        rw [hm, hsel]
+
+/-- the score→performance map passes through every knot; when the mean performed onsets are
+    strictly increasing the performance→score map passes through every knot as well and, with at
+    least two knots, the two maps are inverse to each other everywhere (extrapolation included) -/
+theorem time_maps_interp (ro : Bool) (rows : List TRow) :
+    (∀ u m, (u, m) ∈ timeKnots ro rows → stimeToPtime (timeKnots ro rows) u = some m) ∧
+    (IncY (timeKnots ro rows) →
+      (∀ u m, (u, m) ∈ timeKnots ro rows → ptimeToStime (timeKnots ro rows) m = some u) ∧
+      (2 ≤ (timeKnots ro rows).length →
+        (∀ s, ∃ p, stimeToPtime (timeKnots ro rows) s = some p ∧ ptimeToStime (timeKnots ro rows) p = some s) ∧
+        (∀ p, ∃ s, ptimeToStime (timeKnots ro rows) p = some s ∧ stimeToPtime (timeKnots ro rows) s = some p))) := by
+  have hx := timeKnots_incX ro rows
+  generalize timeKnots ro rows = ks at hx ⊢
+  refine ⟨fun u m h => interpExt_knot ks hx u m h, ?_⟩
+  intro hy
+  have hsw : swapKnots ks = swapK ks := swapKnots_eq ks hy
+  have hxs : IncX (swapK ks) := by
+    show List.Pairwise _ (List.map _ ks)
+    rw [List.pairwise_map]; exact hy
+  have hys : IncY (swapK ks) := by
+    show List.Pairwise _ (List.map _ ks)
+    rw [List.pairwise_map]; exact hx
+  have hss : swapK (swapK ks) = ks := by
+    unfold swapK
+    rw [List.map_map]
+    conv_rhs => rw [← List.map_id ks]
+    apply List.map_congr_left
+    intro k _
+    rfl
+  refine ⟨?_, ?_⟩
+  · intro u m h
+    unfold ptimeToStime
+    rw [hsw]
+    exact interpExt_knot (swapK ks) hxs m u (List.mem_map.mpr ⟨(u, m), h, rfl⟩)
+  · intro hlen
+    unfold stimeToPtime ptimeToStime
+    rw [hsw]
+    cases ks with
+    | nil => simp at hlen
+    | cons k0 t =>
+      cases t with
+      | nil => simp at hlen
+      | cons k1 rest =>
+        refine ⟨fun s => interpExt_inverse rest k0 k1 hx hy s, ?_⟩
+        intro p
+        have := interpExt_inverse (swapK rest) (k0.2, k0.1) (k1.2, k1.1)
+          (by simpa [swapK] using hxs) (by simpa [swapK] using hys) p
+        rw [show ((k0.2, k0.1) :: (k1.2, k1.1) :: swapK rest) = swapK (k0 :: k1 :: rest) by simp [swapK], hss] at this
+        exact this
+
+def demoRows : List TRow := [(0, 1, 1), (0, 2, 5/4), (1, 0, 11/8), (1, 1, 3/2), (2, 0, 2), (3, 1, 5/2)]
+example : timeKnots true demoRows = [(0, 9/8), (1, 3/2), (3, 5/2)] := by decide +kernel
+example : IncY (timeKnots true demoRows) ∧ 2 ≤ (timeKnots true demoRows).length := by decide +kernel
+example : stimeToPtime (timeKnots true demoRows) 2 = some 2 ∧ ptimeToStime (timeKnots true demoRows) 4 = some 6 := by
+  decide +kernel
 
 end C18
